@@ -64,6 +64,20 @@ Theorem C17_close_is_idempotent : forall s id s1,
 Proof. exact close_is_idempotent. Qed.
 Print Assumptions C17_close_is_idempotent.
 
+(* CancelRead, SetDeadline..., Read and Write on either end never touch the bookkeeping, so what
+   Conn.Close / CloseConnection (or any other operation) releases is the same after any number of
+   them - in particular after the peer's CancelRead, when closing the QUIC stream itself fails *)
+Theorem C17_stream_op_changes_nothing : forall v s cid d,
+  step v s (StreamOp cid d) = Ok s \/ step v s (StreamOp cid d) = Reject.
+Proof. exact stream_op_changes_nothing. Qed.
+Print Assumptions C17_stream_op_changes_nothing.
+
+Theorem C17_close_releases_the_same_after_stream_ops : forall v s ops o,
+  Forall (fun x => exists cid d, x = StreamOp cid d) ops ->
+  run v s (ops ++ [o]) = run v s [o].
+Proof. exact close_releases_the_same_after_stream_ops. Qed.
+Print Assumptions C17_close_releases_the_same_after_stream_ops.
+
 (* Ping leaves nothing behind, answered or not *)
 Theorem C17_ping_leaves_nothing : forall s n ok,
   step Fixed s (PingOp n ok) = Ok s \/ step Fixed s (PingOp n ok) = Reject.
